@@ -126,15 +126,17 @@ fn guarded(l: &Layout) -> bool {
 }
 
 unsafe fn check(base: *mut u8, size: usize) {
+    const W: u64 = u64::from_ne_bytes([RZ_BYTE; 8]);
     let mut bad = 0u64;
-    for i in 16..RZ {
-        if *base.add(i) != RZ_BYTE {
+    let before = base.add(16) as *const u64;
+    for i in 0..(RZ - 16) / 8 {
+        if before.add(i).read() != W {
             bad = 1;
         }
     }
-    let after = base.add(RZ + size);
-    for i in 0..RZ {
-        if *after.add(i) != RZ_BYTE {
+    let after = base.add(RZ + size) as *const u64;
+    for i in 0..RZ / 8 {
+        if after.add(i).read_unaligned() != W {
             bad = 2;
         }
     }
